@@ -89,7 +89,28 @@ func newWsBackend() *wsBackend {
 		b.paths[label] = [2]string{r.URL.EscapedPath(), r.URL.RawQuery}
 		b.hdrs[label] = r.Header.Clone()
 		b.wmu[label] = &sync.Mutex{}
+		wmu := b.wmu[label]
 		b.mu.Unlock()
+		if strings.HasPrefix(label, "wo-") {
+			// a backend that only writes (an event stream): it never reads, so it never answers a close
+			// frame; it notices the end of the connection when a write fails
+			go func() {
+				for i := 0; i < 400; i++ {
+					time.Sleep(25 * time.Millisecond)
+					wmu.Lock()
+					err := c.WriteControl(websocket.PingMessage, nil, time.Now().Add(time.Second))
+					wmu.Unlock()
+					if err != nil {
+						hx.Emit("BackendSawClose", "sid", b.sid(label), "how", "write failed")
+						b.mu.Lock()
+						b.seenC[label] = true
+						b.mu.Unlock()
+						return
+					}
+				}
+			}()
+			return
+		}
 		go b.readLoop(label, c)
 	}))
 	return b
@@ -713,6 +734,37 @@ func wsCallsDriver(a *Args) {
 		hx.Emit("Final", "panicked", shim.panicked)
 		cancel()
 		res.Case(strings.Join(seq, ","), map[string]interface{}{"sequence": seq})
+	}
+	// a backend that never reads (it only streams events): closing the session must still close its websocket
+	for r := 0; r < 2; r++ {
+		hx.Reset(fmt.Sprintf("wsclose-writeonly-%d", r), "wsclose:write-only-backend")
+		shim, cancel := newShim(be.host(), false)
+		label := fmt.Sprintf("wo-%d", r)
+		sid, st := shim.open(be, label, "1")
+		if st == 200 {
+			sent := map[int]wsMsg{}
+			for n := 1; n <= 2+r*9; n++ { // the second round leaves more than ten messages undelivered at the close
+				m := wsMsg{websocket.TextMessage, []byte(fmt.Sprintf("%d:event", n))}
+				sent[n] = m
+				be.send(label, n, m)
+			}
+			time.Sleep(20 * time.Millisecond)
+			if r == 0 {
+				pollOnce(shim, sid, sent, 0)
+			}
+			hx.Emit("CloseBegin", "sid", sid)
+			code, _ := shim.call("close", fmt.Sprintf(`{"id":%q}`, sid), "1")
+			hx.Emit("Call", "kind", "close", "arg", "valid", "sid", sid, "status", code)
+			for i := 0; i < 240 && !be.sawClose(label); i++ {
+				time.Sleep(25 * time.Millisecond)
+			}
+		}
+		shim.mu.Lock()
+		p := shim.panicked
+		shim.mu.Unlock()
+		hx.Emit("Final", "panicked", p)
+		cancel()
+		res.Case(fmt.Sprintf("close:write-only-backend:%d", r), map[string]interface{}{"round": r})
 	}
 	// gated concurrent pairs in a child process (a panic in a connection goroutine kills the process)
 	for _, pair := range []string{"shapes", "data-vs-close", "close-vs-close", "poll-gated", "poll-vs-poll", "stress"} {
